@@ -200,6 +200,11 @@ class SharedMemoryFileBufferedCollection(FileBufferedCollection):
                 # If all we had to do is set the flag, it could be done without any
                 # check, but we also need to increment the number of modified
                 # items, so we may as well do the update conditionally as well.
+                # A save always carries the complete new content. After a load
+                # this instance's data *is* the buffered data, but clear() and
+                # reset() save without loading, so the buffer has to be pointed
+                # at this instance's data.
+                type(self)._buffer[self._filename]["contents"] = self._data
                 if not type(self)._buffer[self._filename]["modified"]:
                     type(self)._buffer[self._filename]["modified"] = True
                     type(self)._CURRENT_BUFFER_SIZE += 1
